@@ -220,9 +220,10 @@ impl Property for C13 {
         let prefs = (
             sel(&languages()),
             sel(&["ClearSpeak", "SimpleSpeak"]),
-            (sel(&["100", "50", "200", "80.5"]), sel(&["100", "0", "250", "33"])),
-            (sel(&["0", "1.0", "-5", "20"]), sel(&["180", "100", "300"]), sel(&["100", "50"])),
-            (sel(&["0", "10", "-10", "35.5"]), any::<bool>(), any::<bool>(), sel(&["", "cap"])),
+            // typical values, values next to the defaults (a change that rounds to "no change" in the engine's units), extremes
+            (sel(&["100", "50", "200", "80.5", "101", "99", "100.4"]), sel(&["100", "0", "250", "33", "1", "99", "101"])),
+            (sel(&["0", "1.0", "-5", "20", "-1", "0.3", "1.4", "-1.4", "100", "-60"]), sel(&["180", "100", "300", "181", "179", "185"]), sel(&["100", "50", "99", "1", "0"])),
+            (sel(&["0", "10", "-10", "35.5", "1", "-1", "0.4", "1.4", "-1.4", "3", "-3", "99", "-60"]), any::<bool>(), any::<bool>(), sel(&["", "cap"])),
             any::<bool>(),
             sel(&["Terse", "Medium", "Verbose"]),
         )
